@@ -68,21 +68,29 @@ example : ¬ IsClient (T "Clientx") := by
 
 /-! ### nested detail dicts -/
 
-/-- XML reading of a written detail entry, for every nesting: equal up to what XML cannot
-    distinguish (empty string = empty dict = None) -/
-theorem detail_xml_roundtrip (k : Text) (d : Detail) : xmlToDetail (detailToXml k d) = d.norm :=
-  xmlToDetail_detailToXml k d
+/-- XML reading of a written detail dict, for every nesting of dicts and lists: the ordered (key, value) pairs
+    up to what XML cannot distinguish — `normKvs`: an empty string / dict / list and None are one empty
+    element; a one-item list is its item; a list of n items is n entries with the same key -/
+theorem detail_xml_roundtrip (kvs : List (Text × Detail)) : kidsToKvs (kvsToXml kvs) = normKvs kvs :=
+  kidsToKvs_kvsToXml kvs
 
-/-- … and exactly equal when no empty string / empty dict occurs -/
-theorem detail_xml_exact (k : Text) (d : Detail) (h : d.xmlSafe = true) :
-    xmlToDetail (detailToXml k d) = d := by
-  rw [xmlToDetail_detailToXml, norm_of_safe d h]
+/-- `normKvs` is a normal form: reading what was written from a reading gives the same reading -/
+theorem detail_xml_normal_form (kvs : List (Text × Detail)) : normKvs (normKvs kvs) = normKvs kvs :=
+  normKvs_idem kvs
 
-/-- dict documents carry every nested detail exactly -/
+/-- … and exactly equal when no list, empty string or empty dict occurs -/
+theorem detail_xml_exact (kvs : List (Text × Detail)) (h : kvsSafe kvs = true) :
+    kidsToKvs (kvsToXml kvs) = kvs := by
+  rw [kidsToKvs_kvsToXml, normKvs_of_safe kvs h]
+
+/-- dict documents carry every nested detail (dicts and lists) exactly -/
 theorem detail_doc_roundtrip (d : Detail) : docToDetail (detailToDoc d) = d :=
   docToDetail_detailToDoc d
 
-example : (Detail.node [(T "a", .leaf (T "b")), (T "c", .node [(T "d", .null)])]).xmlSafe = true := by decide
+example : kvsSafe [(T "a", .leaf (T "b")), (T "c", .node [(T "d", .null)])] = true := by decide
+example : normKvs [(T "k", .list [.leaf (T "x"), .node [(T "a", .leaf (T "b"))]]), (T "e", .list [])] =
+    [(T "k", .leaf (T "x")), (T "k", .node [(T "a", .leaf (T "b"))]), (T "e", .null)] := by
+  simp [normKvs, normEntry, normItems, normItem]
 
 /-! ### the fault on the wire, read by the reference decoder -/
 
@@ -131,7 +139,7 @@ example : splitOn '.' (T "Client.a.b") = T "Client" :: [T "a", T "b"] := by deci
 /-- a raised Fault becomes `ctx.out_error` unchanged (same object: class, code, message, detail)
     and `ctx.out_object` is never assigned -/
 theorem funnel_fault_intact (c : Cls) (f : FaultV) :
-    process facts09 (.plain (.raises (.fault c f))) = ⟨.unset, some (c, f)⟩ := rfl
+    process facts09 (.plain (.raises (.fault c f))) = some ⟨.unset, some (c, f)⟩ := rfl
 
 /-- once `ctx.out_error` is set, what is serialised does not depend on `ctx.out_object`,
     and it is never a response that carries a return value -/
@@ -152,7 +160,7 @@ theorem no_return_on_fault (p : Proto) (o o' : OutObj) (e : Cls × FaultV) :
 /-- user code raises a Fault: the response is that fault's encoding with the documented status -/
 theorem fault_response (p : Proto) (c : Cls) (f : FaultV) (w : Wire) (hw : encodeFault facts09 p f = some w) :
     wsgi facts09 p none (.plain (.raises (.fault c f))) = .response (statusOf facts09 p c f.code) w := by
-  simp [wsgi, process, funnel, handleError, hw]
+  simp [wsgi, process, afterRaise, funnel, handleError, hw]
 
 /-- end to end: whatever the reference decoder reads from the encoding of the raised fault (the `fault_roundtrip_*`
     theorems say what that is under each protocol) is what it reads from the HTTP response, sent with the
@@ -177,7 +185,7 @@ theorem status_preset_respected (p : Proto) (s : Nat) (c : Cls) (f : FaultV) (w 
     (hw : encodeFault facts09 p f = some w) :
     wsgi facts09 p (some s) (.plain (.raises (.fault c f))) = .response s w := by
   have h : facts09.errorPathKeepsStatus = true := by decide
-  simp [wsgi, process, funnel, handleError, hw, h]
+  simp [wsgi, process, afterRaise, funnel, handleError, hw, h]
 
 /-- the same when the fault is raised by a generator method — before its first `yield` or later,
     while the response is being produced: nothing of what it yielded is sent -/
@@ -187,11 +195,58 @@ theorem fault_response_generator (p : Proto) (c : Cls) (f : FaultV) (w : Wire)
     wsgi facts09 p none (.gen (.value v) (some (.fault c f))) = .response (statusOf facts09 p c f.code) w := by
   have h1 : facts09.genFirstGuarded = true := by decide
   have h2 : facts09.serErr = .funnelled := by decide
-  simp [wsgi, process, funnel, handleError, serializeFailed, hw, h1, h2]
+  simp [wsgi, process, afterRaise, funnel, handleError, serializeFailed, hw, h1, h2]
+
+/-! ### every raise site: event listeners are user code too -/
+
+/-- every listener call of `process_request` is inside its `try` block -/
+theorem listeners_in_try (site : Site) (level : Level) : hookCovered facts09 site level = true := by
+  cases site <;> cases level <;> decide
+
+/-- a Fault raised by a `method_call` listener (the documented authentication hook) or by a
+    `method_return_object` listener, registered with the application or with the service, becomes
+    `ctx.out_error` unchanged; after a `method_return_object` listener `ctx.out_object` already holds the return
+    value (which `no_return_on_fault` shows is not sent) -/
+theorem funnel_listener_fault_intact (level : Level) (c : Cls) (f : FaultV) (body : Step) (v : Text) :
+    process facts09 (.hook .methodCall level (.fault c f) body) = some ⟨.unset, some (c, f)⟩ ∧
+    process facts09 (.hook .returnObject level (.fault c f) (.value v)) = some ⟨.value v, some (c, f)⟩ := by
+  have h1 := listeners_in_try .methodCall level
+  have h2 := listeners_in_try .returnObject level
+  simp [process, h1, h2, afterRaise, funnel]
+
+/-- … and the response is that fault's encoding with the documented status (401 for
+    InvalidCredentialsError etc. by `status_dedicated`), never the return value -/
+theorem fault_response_listener (site : Site) (level : Level) (p : Proto) (c : Cls) (f : FaultV) (w : Wire)
+    (hw : encodeFault facts09 p f = some w) (v : Text) :
+    wsgi facts09 p none (.hook site level (.fault c f) (.value v)) = .response (statusOf facts09 p c f.code) w := by
+  have h := listeners_in_try site level
+  cases site <;> simp [wsgi, process, h, afterRaise, funnel, handleError, hw]
+
+/-- a non-Fault exception raised by a listener is answered with the generic fault, status 500 -/
+theorem other_from_listener_is_internal_error (site : Site) (level : Level) (p : Proto) (e : Exc) (v : Text) :
+    ∃ w, encodeFault facts09 p internalError = some w ∧
+      wsgi facts09 p none (.hook site level (.other e) (.value v)) = .response 500 w := by
+  have h := listeners_in_try site level
+  have h3 : facts09.faultString = .constant (T "Internal Error") := by decide
+  have h4 : facts09.genericCode = T "Server" := by decide
+  have hg : genericFault facts09 e = (Cls.plain, internalError) := by
+    simp [genericFault, faultString, h3, h4, internalError]
+  have hst : statusOf facts09 p Cls.plain (T "Server") = 500 := by
+    cases hp : p.isSoap
+    · exact status_otherwise_500 p hp _ (by rw [← isClientCode_iff]; decide)
+    · exact status_soap_500 p hp _ _
+  have henc : ∃ w, encodeFault facts09 p internalError = some w := by
+    rcases p with _ | _ | _ | b | _ | _
+    case dict => cases b <;> exact ⟨_, rfl⟩
+    all_goals exact ⟨_, rfl⟩
+  obtain ⟨w, hw⟩ := henc
+  have hcode : internalError.code = T "Server" := rfl
+  refine ⟨w, hw, ?_⟩
+  cases site <;> simp [wsgi, process, h, afterRaise, funnel, handleError, hg, hw, hcode, hst]
 
 /-! ### non-Fault exceptions -/
 
-/-- non-interference: for every program, output protocol and pre-set status the whole response
+/-- non-interference: for every program (every raise site: function body, generator body, listeners), output protocol and pre-set status the whole response
     (status and body) is the same whatever type name, text and traceback the non-Fault exceptions
     raised in it carry — nothing of them can appear in it -/
 theorem no_leak (p : Proto) (preset : Option Nat) (u : UserCode) :
@@ -223,7 +278,7 @@ theorem other_is_internal_error (p : Proto) (e : Exc) (v : Text) (later : Option
   obtain ⟨w, hw⟩ := henc
   have hcode : internalError.code = T "Server" := rfl
   refine ⟨w, hw, ?_, ?_, ?_, ?_⟩ <;>
-    simp [wsgi, process, funnel, handleError, serializeFailed, hg, hw, h1, h2, hcode, hst]
+    simp [wsgi, process, afterRaise, funnel, handleError, serializeFailed, hg, hw, h1, h2, hcode, hst]
 
 /-- the reference decoder reads `Server` / `Internal Error` from it, with no detail -/
 theorem internal_error_decodes (p : Proto) :
